@@ -1,10 +1,111 @@
+import BoboVerif.Model.Tcp
 import BoboVerif.Drivers.Util
-/- driver stub for the Modes model (to be replaced by the real line protocol). -/
+/-
+driver for M-Tcp (`bobodrv modes`).  Records are run ids (`String`); lists are comma separated, `-` = empty.
+
+  new <self> <pping> <presync> <astash> <aping> <aresync> <flag01> <urn> <urn> ...   -> ok
+  newdef <self> <flag01> <urn> <urn> ...        (constructor default periods)         -> ok
+  set <urn> <last_comms> <last_attempt> <flag01> <c> <h> <u>                           -> state
+  push <c> <h> <u>                              (on_decider_update, local)             -> state
+  in <urn> <flags>                              (listener handled a message from urn)  -> state
+  pass <now> <snapC> <snapH> <snapU> <urn>:<err>:<clock> ...   (one entry per device other than self)
+        -> wires=<urn|type|flags|c|h|u ; ...> # state
+  state = <urn|last_comms|last_attempt|flag|c|h|u ; ...> q=<len>
+-/
 namespace Bobo.Drv.Modes
+open Bobo.Tcp
 
 structure DS where
-  dummy : Unit := ()
+  st : Option (TState String) := none
 
-def step (d : DS) (_line : String) : DS × String := (d, "unimplemented")
+def parseList (s : String) : List String :=
+  if s = "-" then [] else s.splitOn ","
+
+def showList (l : List String) : String :=
+  if l.isEmpty then "-" else ",".intercalate l
+
+def parseBool? (s : String) : Option Bool :=
+  if s = "0" then some false else if s = "1" then some true else none
+
+def showPeer (e : String × Peer String) : String :=
+  "|".intercalate [e.1, toString e.2.lastComms, toString e.2.lastAttempt, boolStr e.2.flagReset,
+    showList e.2.stashC, showList e.2.stashH, showList e.2.stashU]
+
+def showState (s : TState String) : String :=
+  " ; ".intercalate (s.peers.map showPeer) ++ " q=" ++ toString s.queue.length
+
+def showWire (s : TState String) (w : Wire String) : String :=
+  let urn := match s.peers[w.peer]? with
+    | some e => e.1
+    | none => "?"
+  "|".intercalate [urn, toString w.typ.code, toString w.flags,
+    showList w.payload.c, showList w.payload.h, showList w.payload.u]
+
+def indexOf? (urn : String) : List (String × Peer String) → Option Nat
+  | [] => none
+  | e :: rest => if e.1 = urn then some 0 else (indexOf? urn rest).map (· + 1)
+
+def mkState (self : String) (cfg : Periods) (flag : Bool) (urns : List String) : Option (TState String) :=
+  -- the constructor rejects duplicate urns, fewer than two devices, and a device list without `self`
+  if urns.length < 2 || !(urns.contains self) || !urns.Nodup then none
+  else some ⟨self, cfg, [], urns.map (fun u => (u, Peer.init flag))⟩
+
+def parseOutcome (s : TState String) (w : String) : Option (Nat × Nat × Int) :=
+  match w.splitOn ":" with
+  | [u, e, c] =>
+    match indexOf? u s.peers, parseNat? e, parseInt? c with
+    | some i, some e, some c => some (i, e, c)
+    | _, _, _ => none
+  | _ => none
+
+def lookupOutcome (l : List (Nat × Nat × Int)) (i : Nat) : Nat × Int :=
+  match l.lookup i with
+  | some r => r
+  | none => (2, 0)   -- unreachable: `pass` checks that every non-self device has an entry
+
+def step (d : DS) (line : String) : DS × String :=
+  match words line, d.st with
+  | "new" :: self :: pp :: pr :: as :: ap :: ar :: fl :: urns, _ =>
+    match parseInt? pp, parseInt? pr, parseInt? as, parseInt? ap, parseInt? ar, parseBool? fl with
+    | some pp, some pr, some as, some ap, some ar, some fl =>
+      match mkState self ⟨pp, pr, as, ap, ar⟩ fl urns with
+      | some s => ({ st := some s }, "ok")
+      | none => (d, "bad-op")
+    | _, _, _, _, _, _ => (d, "bad-op")
+  | "newdef" :: self :: fl :: urns, _ =>
+    match parseBool? fl with
+    | some fl =>
+      match mkState self Periods.default fl urns with
+      | some s => ({ st := some s }, "ok")
+      | none => (d, "bad-op")
+    | none => (d, "bad-op")
+  | ["set", urn, lc, la, fl, c, h, u], some s =>
+    match indexOf? urn s.peers, parseInt? lc, parseInt? la, parseBool? fl with
+    | some i, some lc, some la, some fl =>
+      let s' := { s with peers := s.peers.set i (urn, ⟨lc, la, fl, parseList c, parseList h, parseList u⟩) }
+      ({ st := some s' }, showState s')
+    | _, _, _, _ => (d, "bad-op")
+  | ["push", c, h, u], some s =>
+    let s' := push s ⟨parseList c, parseList h, parseList u⟩
+    ({ st := some s' }, showState s')
+  | ["in", urn, fl], some s =>
+    match indexOf? urn s.peers, parseNat? fl with
+    | some i, some fl =>
+      let s' := incoming s i fl
+      ({ st := some s' }, showState s')
+    | _, _ => (d, "bad-op")
+  | "pass" :: now :: sc :: sh :: su :: outs, some s =>
+    match parseInt? now, outs.mapM (parseOutcome s) with
+    | some now, some ol =>
+      let others := (List.range s.peers.length).filter (fun i =>
+        match s.peers[i]? with
+        | some e => e.1 ≠ s.self
+        | none => false)
+      if others.all (fun i => (ol.lookup i).isSome) then
+        let r := outIter s now ⟨parseList sc, parseList sh, parseList su⟩ (lookupOutcome ol)
+        ({ st := some r.1 }, "wires=" ++ " ; ".intercalate (r.2.map (showWire s)) ++ " # " ++ showState r.1)
+      else (d, "bad-op")
+    | _, _ => (d, "bad-op")
+  | _, _ => (d, "bad-op")
 
 end Bobo.Drv.Modes
